@@ -1,15 +1,33 @@
 """What MANIFEST.json is generated from (bin/mkmanifest)."""
 
-HOOK_COMMITS = ["c4c2ecd", "2f67f21"]
+HOOK_COMMITS = ["c4c2ecd", "2f67f21", "e5d0013"]
 
 ENGINES = [
-    {"name": "tlc", "path": "/verif/lib/vlib.py", "serves_properties": ["C12"],
+    {"name": "tlc", "path": "/verif/lib/vlib.py", "serves_properties": ["C01", "C02", "C03", "C12"],
      "kind_free_text": "TLC runner (exhaustive, simulation), TLA+ value parser, evidence writer"},
-    {"name": "vh", "path": "/verif/harness", "serves_properties": ["C12"],
+    {"name": "psrun", "path": "/verif/lib/psprops.py", "serves_properties": ["C01", "C02", "C03"],
+     "kind_free_text": "abstract programs (catalogue + seeded generator) -> MroSem table by TLC -> real pipestances under forced schedules -> PsTrace monitors by TLC"},
+    {"name": "vh", "path": "/verif/harness", "serves_properties": ["C01", "C02", "C03", "C12"],
      "kind_free_text": "Go conformance harness built with -tags verif against /repo's working tree"},
 ]
 
+_RT_NOTE = ("programs: hand catalogue + fixed generated corpus (one mapped level per call chain; deeper nestings of run-time map calls are outside the corpus, see DESIGN.md); "
+            "jobs run through the verif-tagged callback job manager with table-driven stage code; renderer, driver and hook placement are trusted; "
+            "known findings (known_findings.json) are printed as KNOWN-FINDING")
+
 CHECKS = [
+    {"id": "C01", "engine": "tlc+psrun+vh",
+     "technique": "TLA+ reference semantics (MroSem) evaluated by TLC as oracle; real pipestance runs under forced schedules; TLC monitors on recorded traces",
+     "text": "For every program of the corpus TLC evaluates spec/MroSem.tla (denotational MRO semantics) to the table of stage invocations with their arguments, chunk outputs and the top-level outputs; the real runtime executes the rendered program under seeded and adversarial schedules; each job compares the _args/_chunk_outs it reads with the table, and spec/PsTrace.tla (TLC) judges every StageBegin and the final outputs.",
+     "ref": "DESIGN.md 5 C01, Appendix A", "note": _RT_NOTE},
+    {"id": "C02", "engine": "tlc+psrun+vh",
+     "technique": "dependency relation from TLA+ semantics (MroSem provenance); slow-producer and random schedules forced on the real run loop; TLC trace monitors",
+     "text": "Deps (per job: the stage instances whose outputs flow into its arguments, disabling conditions, map sources, plus enclosing preflights) is computed by TLC from MroSem; every producer in turn is held back while everything else runs; PsTrace (TLC) requires at every StageBegin that all dependencies' last jobs have ended ok and split < chunks < join.",
+     "ref": "DESIGN.md 5 C02", "note": _RT_NOTE},
+    {"id": "C03", "engine": "tlc+psrun+vh",
+     "technique": "expected job set from TLA+ semantics; execution counting on real runs; TLC trace monitors",
+     "text": "ExpectedJobs = MroSem.Invocations(p) (forks per element/key, chunks as returned by split, nothing for disabled or empty/null mapped calls); PsTrace (TLC) flags any job executed twice, any job not in the table, any expected job never executed and any run that stalls.",
+     "ref": "DESIGN.md 5 C03", "note": _RT_NOTE},
     {"id": "C12", "engine": "tlc+vh",
      "technique": "TLA+ model of ResourceSemaphore checked by TLC; TLC behaviours replayed against the real object",
      "text": "ResSem.tla (one action per critical section of resource_semaphore.go) is model-checked exhaustively for WithinLimits, GrantFits, Fifo, NoLostWakeup and progress; seeded TLC behaviours are replayed against the real core.ResourceSemaphore and the same guards are judged on the real object's observable state after every step.",
